@@ -13,22 +13,29 @@ B64 = cset("./0-9A-Za-z")
 
 
 def load(ctx):
-    """Return (fn, tests) where tests = [(pattern text, class name)] in program order,
-    derived from the path set: on every path the returned class is the class of the LAST true test."""
+    """Return (fn, tests, outcomes): tests = ordered list of (pattern text, match mode); outcomes =
+    [(class name, {test index: truth})] one per feasible path.  Works for any decision structure
+    over re.match(<literal>, val) tests (overwrite chain, early returns, elif ladder ...)."""
     p, A, G = ctx.p, ctx.A, ctx.G
     fn = p.find_function("_check_sensitive_item_format")
     val = ("param", fn.params[0])
     fp = A.paths(fn)
-    tests = []  # ordered unique
+    tests = []
     outcomes = []
     for path in fp.paths:
+        if not path.feasible():
+            continue
         if path.kind != "return":
             raise AnalysisError("classifier has a non-returning path")
         r = path.returned()
         if not (r[0] == "attr" and r[1][0] == "global" and r[1][2] == "_sensitive_item_formats"):
             raise AnalysisError("classifier returns %s" % show(r))
-        vec = []
-        for t, pol, node in path.conds:
+        vec = {}
+        for t, pol in path.atoms():
+            if t[0] == "boolop":
+                continue
+            if t[0] == "compare" and t[1] == ("is",) and t[2][1] == ("const", None):
+                t, pol = t[2][0], not pol  # `re.match(...) is None`
             if not (t[0] == "call" and t[1][0] == "attr" and t[1][2] in ("match", "fullmatch") and len(t[2]) >= 2 and t[2][0][0] == "const" and t[2][1] == val):
                 raise AnalysisError("classifier test %s is not re.match(<literal>, val)" % show(t))
             flags = t[2][2] if len(t[2]) > 2 else dict(t[3]).get("flags")
@@ -37,30 +44,11 @@ def load(ctx):
             key = (t[2][0][1], t[1][2])
             if key not in tests:
                 tests.append(key)
-            vec.append((key, pol))
-        outcomes.append((vec, r[2], path))
-    # class of each test: from a path where only that test is true
-    klass = {}
-    for vec, res, path in outcomes:
-        trues = [k for k, pol in vec if pol]
-        if len(trues) == 1:
-            klass[trues[0]] = res
-        if not trues:
-            klass[None] = res
-    ordered = []
-    for vec, res, path in outcomes:
-        if len(vec) == len(tests):
-            ordered = [k for k, pol in vec]
-            break
-    if len(ordered) != len(tests) or any(k not in klass for k in ordered):
-        raise AnalysisError("classifier structure not recognised (tests %d)" % len(tests))
-    # verify last-true-wins on every path
-    for vec, res, path in outcomes:
-        trues = [k for k, pol in vec if pol]
-        want = klass[trues[-1]] if trues else klass.get(None)
-        if want != res:
-            raise AnalysisError("classifier is not 'last matching test wins' on path %s" % path.describe()[:100])
-    return fn, [(k[0], k[1], klass[k]) for k in ordered], klass.get(None)
+            vec[tests.index(key)] = pol
+        outcomes.append((r[2], vec))
+    if not tests or not outcomes:
+        raise AnalysisError("classifier structure not recognised")
+    return fn, tests, outcomes
 
 
 def _full_language(text, mode):
@@ -81,28 +69,24 @@ def _full_language(text, mode):
     return body, anchored_end
 
 
-def class_languages(tests, default, extra_nodes=()):
-    """Return (alphabet, {class: DFA of strings classified so}, [per-test DFA])."""
+def class_languages(tests, outcomes, extra_nodes=()):
+    """Return (alphabet, {class: DFA of strings classified so}, [per-test DFA], anchored flags)."""
     bodies = []
     anchored = []
-    for text, mode, k in tests:
+    for text, mode in tests:
         b, a = _full_language(text, mode)
         bodies.append(b)
         anchored.append(a)
     alpha = rx.Alphabet(rx.collect_sets(*bodies) + rx.collect_sets(*extra_nodes) + [CharSet.full()])
     T = [rx.DFA.from_ast(b, alpha) for b in bodies]
+    NT = [t.complement() for t in T]
     ALL = rx.DFA.from_ast(rx.star(rx.ANYCHAR), alpha)
     langs = {}
-    for i, (text, mode, k) in enumerate(tests):
-        L = T[i]
-        for j in range(i + 1, len(tests)):
-            L = L - T[j]
+    for k, vec in outcomes:
+        L = ALL
+        for i, pol in sorted(vec.items()):
+            L = L & (T[i] if pol else NT[i])
         langs[k] = (langs[k] | L) if k in langs else L
-    none = ALL
-    for t in T:
-        none = none - t
-    if default is not None:
-        langs[default] = (langs[default] | none) if default in langs else none
     return alpha, langs, T, anchored
 
 
@@ -114,16 +98,14 @@ def hex_of_ascii(prefix):
 
 def check(ctx, rep, cl, base_fmt="netconanRemoved{}"):
     try:
-        fn, tests, default = load(ctx)
+        fn, tests, outcomes = load(ctx)
     except AnalysisError as e:
         f = ctx.p.find_function("_check_sensitive_item_format")
         rep.fail(cl + ".classifier-structure", f.name, str(e), W(f), key=cl + ".classifier-structure|_check_sensitive_item_format")
         return None
     rep.analysed(fn)
     w = W(fn)
-    rep.ob(cl + ".classifier-default", fn.name, default == "text", "a value matching no test is classified %s" % default, w)
-    classes = [k for _, _, k in tests]
-    rep.sample({"classifier_order": [(t, k) for t, m, k in tests]})
+    rep.sample({"classifier_tests": tests, "decision_paths": len(outcomes)})
     prefix = base_fmt.replace("{}", "")
     D = cset("0-9")
     HEXC = cset("0-9a-fA-F")
@@ -152,12 +134,12 @@ def check(ctx, rep, cl, base_fmt="netconanRemoved{}"):
     if jun_alpha is not None:
         out["juniper_type9"] = cat(lit("$9$"), rrep(jun_alpha, 4, None))
     try:
-        alpha, langs, T, anchored = class_languages(tests, default, list(spec_in.values()) + list(out.values()))
+        alpha, langs, T, anchored = class_languages(tests, outcomes, list(spec_in.values()) + list(out.values()))
     except RxError as e:
         rep.fail(cl + ".classifier-patterns", fn.name, "classifier pattern not analysable: %s" % e, w)
         return None
-    for (text, mode, k), a in zip(tests, anchored):
-        rep.ob(cl + ".classifier-anchored", "%s:%s" % (fn.name, k), a or mode == "fullmatch", "test %r for class %s is anchored at the end ($): a prefix match would misclassify longer values" % (text, k), w, key="%s.classifier-anchored|%s" % (cl, k))
+    for (text, mode), a in zip(tests, anchored):
+        rep.ob(cl + ".classifier-anchored", "%s:%s" % (fn.name, text), a or mode == "fullmatch", "test %r is anchored at the end ($): a prefix match would misclassify longer values" % (text,), w, key="%s.classifier-anchored|%s" % (cl, text))
     rep.stat("classifier_dfa_states", {k: d.nstates() for k, d in langs.items()})
     for k, node in spec_in.items():
         S = rx.DFA.from_ast(node, alpha)
